@@ -749,7 +749,7 @@ def _proj_suffix(pl):
     return out
 
 
-def roots_of(body, operand_or_place, du=None, max_depth=80, through_calls=None, payload_calls=True):
+def roots_of(body, operand_or_place, du=None, max_depth=80, through_calls=None, payload_calls=True, suffix0=()):
     """Backward provenance of a value: follows copies/moves, casts, re-borrows, derefs and
     field/payload projections back to *root* events.  A root is a tuple whose last element is the
     *suffix*: the field selections (index, name, variant) still to be applied to the root value.
@@ -860,9 +860,9 @@ def roots_of(body, operand_or_place, du=None, max_depth=80, through_calls=None, 
             visit_place(op.place, suffix, depth)
 
     if isinstance(operand_or_place, Operand):
-        visit_operand(operand_or_place, [], 0)
+        visit_operand(operand_or_place, list(suffix0), 0)
     else:
-        visit_place(operand_or_place, [], 0)
+        visit_place(operand_or_place, list(suffix0), 0)
     return out
 
 
